@@ -837,3 +837,63 @@ Section HistoryP.
     split; [exact H4|exact H6].
   Qed.
 End HistoryP.
+
+(* ================================================================= one BIOGEME object and its engine *)
+Section ObjectP.
+  Context {A : Type}.
+
+  Lemma send_ok c (db : list (@hrow A)) : engine_ok c (snd (send c db)).
+  Proof.
+    unfold send, engine_ok. cbn [snd e_table e_map]. split; [apply sort_by_sorted|].
+    apply build_map_ids_perm. unfold col_ids. apply Permutation_map, sort_by_perm.
+  Qed.
+
+  Lemma fold_engine_ok c : forall ops (s : list (@hrow A) * engine),
+    engine_ok c (snd s) -> engine_ok c (snd (fold_left (bstep c) ops s)).
+  Proof.
+    induction ops as [|o tl IH]; intros s H; [exact H|].
+    cbn [fold_left]. apply IH. destruct o; cbn [bstep snd]; [exact H|exact H|apply send_ok].
+  Qed.
+
+  Definition from_tables (db : list (@hrow A)) (l : list (@bop A)) (t : list (@hrow A)) : Prop :=
+    t = db \/ In (BChange t) l.
+
+  Lemma from_tables_app db l o t : from_tables db l t -> from_tables db (l ++ [o]) t.
+  Proof. intros [H|H]; [left; exact H|right; apply in_or_app; left; exact H]. Qed.
+
+  Lemma fold_engine_source c db : forall ops pre (s : list (@hrow A) * engine),
+    (exists te, from_tables db pre te /\ Permutation te (e_table (snd s))) ->
+    (exists td, from_tables db pre td /\ Permutation td (fst s)) ->
+    exists t, from_tables db (pre ++ ops) t /\ Permutation t (e_table (snd (fold_left (bstep c) ops s))).
+  Proof.
+    induction ops as [|o tl IH]; intros pre s He Hd.
+    - rewrite app_nil_r. exact He.
+    - cbn [fold_left]. replace (pre ++ o :: tl) with ((pre ++ [o]) ++ tl) by (rewrite <- app_assoc; reflexivity).
+      destruct He as (te & Fe & Pe). destruct Hd as (td & Fd & Pd).
+      apply IH; destruct o as [t| |]; cbn [bstep fst snd].
+      + exists te. split; [apply from_tables_app; exact Fe|exact Pe].
+      + exists te. split; [apply from_tables_app; exact Fe|exact Pe].
+      + exists td. split; [apply from_tables_app; exact Fd|].
+        unfold send. cbn [snd e_table]. eapply perm_trans; [exact Pd|apply sort_by_perm].
+      + exists t. split; [right; apply in_or_app; right; left; reflexivity|reflexivity].
+      + exists td. split; [apply from_tables_app; exact Fd|].
+        eapply perm_trans; [exact Pd|apply sort_by_perm].
+      + exists td. split; [apply from_tables_app; exact Fd|].
+        unfold send. cbn [fst]. eapply perm_trans; [exact Pd|apply sort_by_perm].
+  Qed.
+
+  (* Whatever the table of the database became after the construction, and in whatever order likelihoods and
+     simulations are asked: the engine holds ONE table, sorted, together with the map of exactly that table;
+     that table is a reordering of the table of the construction or of one of the later tables of the
+     database -- never old rows with a new map. *)
+  Theorem object_engine_consistent : forall c (db : list (@hrow A)) ops,
+    engine_ok c (snd (run_object c db ops)) /\
+    exists t, (t = db \/ In (BChange t) ops) /\ Permutation t (e_table (snd (run_object c db ops))).
+  Proof.
+    intros c db ops. unfold run_object. split.
+    - apply fold_engine_ok, send_ok.
+    - apply (fold_engine_source c db ops [] (send c db)).
+      + exists db. split; [left; reflexivity|]. unfold send. cbn [snd e_table]. apply sort_by_perm.
+      + exists db. split; [left; reflexivity|]. unfold send. cbn [fst]. apply sort_by_perm.
+  Qed.
+End ObjectP.
